@@ -21,6 +21,9 @@ from bacpypes.local import schedule as S
 _bad = R.selftest()
 if _bad:
     raise HarnessError("C20 reference calendar disagrees with datetime: %r" % (_bad,))
+_bad = T.selftest()
+if _bad:
+    raise HarnessError("C20 reference interpreter disagrees with the repository's blessed schedule: %r" % (_bad,))
 _bad = C.conformance()
 if _bad:
     raise HarnessError("C20 UTC clock model disagrees with time.localtime/mktime: %r" % (_bad,))
@@ -140,7 +143,7 @@ def match_date_range(d, start, end, dow='right'):
              "choice; maxday=28: the date (and range limits) only on days 1..28 of a month; range limits: unspecified or "
              "specific, day-of-week octet right or FF, all four choices symbolic",
       outside=DATE_OUTSIDE, stubs=[], assumes=[])
-def calendar_entry(d, choice, months=(1, 12), maxday=31):
+def calendar_entry(d, choice, months=(1, 12), maxday=31, start=None, end=None, dow=None):
     date = draw_date(d, months=months, maxday=maxday)
     if choice == 'date':
         pat = draw_date_pattern(d)
@@ -149,10 +152,10 @@ def calendar_entry(d, choice, months=(1, 12), maxday=31):
         if bool(got) != want:
             raise Violation("calendar-entry-date", date=date, pattern=pat, got=got, want=want)
     elif choice == 'dateRange':
-        start = draw_range_end(d, 'start', maxday=maxday)
-        end = draw_range_end(d, 'end', maxday=maxday)
-        got = S.date_in_calendar_entry(date, CalendarEntry(dateRange=DateRange(startDate=start, endDate=end)))
-        _range_verdict(d, date, start, end, got, "calendar-entry-range")
+        lo = draw_range_end(d, 'start', start, dow, maxday=maxday)
+        hi = draw_range_end(d, 'end', end, dow, maxday=maxday)
+        got = S.date_in_calendar_entry(date, CalendarEntry(dateRange=DateRange(startDate=lo, endDate=hi)))
+        _range_verdict(d, date, lo, hi, got, "calendar-entry-range")
     else:
         wnd = draw_weeknday(d)
         got = S.date_in_calendar_entry(date, CalendarEntry(weekNDay=wnd))
@@ -213,6 +216,8 @@ def draw_entry(d, kind, date, p):
     y, m, day, dow = date
     if kind == 'date':
         return ('date', (255, 255, 255, sym_code(d, p + 'dow_p', 1, 7)))
+    if kind == 'any':
+        return ('date', (255, 255, 255, 255))
     if kind == 'dow':
         # a specific day of week: that of the day or a neighbouring one
         lo = dow if dow < 7 else dow - 1
@@ -367,20 +372,20 @@ def eval_ref(d, days, exc, nweek, eff='wide', prio='sym', res='hm', stale='insta
     so, app = build_schedule(cfg)
     d.note(date=date, now=now)
 
-    res = so._task.eval(date, now)
+    out = so._task.eval(date, now)
     status, want, src = T.evaluate(cfg, date, now)
     if status == T.INACTIVE:
         # outside the effective period nothing is prescribed (eval documents None)
         d.reach()
         return
-    if res is None:
+    if out is None:
         sig = range_sig(date, cfg['eff'][0], cfg['eff'][1])
         oe = (sig['start_unspecified'] or sig['end_unspecified']) and not sig['on_limit']
         d.flag(True, "date-range-open-ended" if oe else "eval-inactive-inside-period",
                where="effectivePeriod", **sig)
         d.reach()
         return
-    got, nxt = plain(res[0]), plain(res[1])
+    got, nxt = plain(out[0]), plain(out[1])
     if status == T.OK:
         d.flag(got != want, "eval-value", date=date, now=now, got=got, want=want, source=src)
     # the timer armed at the reported transition must lie ahead, within the day
@@ -391,8 +396,8 @@ def eval_ref(d, days, exc, nweek, eff='wide', prio='sym', res='hm', stale='insta
         t2 = draw_time(d, 'then_', res)
         d.assume(T.tkey(now) <= T.tkey(t2))
         d.assume(T.tkey(t2) < T.tkey(nxt))
-        res2 = so._task.eval(date, t2)
-        got2 = None if res2 is None else plain(res2[0])
+        out2 = so._task.eval(date, t2)
+        got2 = None if out2 is None else plain(out2[0])
         d.flag(got2 != got, "stale-window", tie=(status == T.TIE), date=date, now=now, value=got,
                next=nxt, then=t2, value_then=got2)
     elif ahead:
@@ -401,8 +406,8 @@ def eval_ref(d, days, exc, nweek, eff='wide', prio='sym', res='hm', stale='insta
         # one has no other steps follows from eval-value holding at every `now`)
         for t2 in T.all_times(cfg, date):
             if T.tkey(now) < T.tkey(t2) and T.tkey(t2) < T.tkey(nxt):
-                res2 = so._task.eval(date, t2)
-                got2 = None if res2 is None else plain(res2[0])
+                out2 = so._task.eval(date, t2)
+                got2 = None if out2 is None else plain(out2[0])
                 d.flag(got2 != got, "stale-window", tie=(status == T.TIE), date=date, now=now, value=got,
                        next=nxt, then=t2, value_then=got2)
     d.reach()
@@ -453,6 +458,7 @@ def draw_second_of_day(d, res, p):
 # first day of the window: leap -> Wed 2024-02-28, Thu 02-29, Fri 03-01, ... (month end in a leap
 # year); newyear -> Sat 2023-12-30, Sun 12-31, Mon 2024-01-01, ... (year end, weekly index 7 -> 1)
 BASES = {'leap': (124, 2, 28, 3), 'newyear': (123, 12, 30, 6)}
+MAX_LOOPS = 400
 FAR_PAST = (0, 1, 1, 1)
 FAR_FUTURE = (254, 12, 31, 2)
 
@@ -516,7 +522,9 @@ def sched_run(d, base, edge, res, start_days, span):
     install_clock(d, candidates)
     w = World(t0)
     so, app = build_schedule(cfg)
-    w.run(until=probe)
+    # a correct interpreter wakes a handful of times per day; a timer re-armed at or before
+    # "now" would spin without the clock moving: the loop is cut and reported
+    w.run(until=probe, max_loops=MAX_LOOPS)
 
     # ---- oracle
     day0, _ = C.split_days(t0, candidates)
@@ -531,6 +539,7 @@ def sched_run(d, base, edge, res, start_days, span):
         d.flag(True, "present-value" if started_inside else "schedule-stops-at-period-edge",
                edge=edge, started_inside=started_inside, date_start=date0, date_probe=datep, time_probe=nowp,
                got=got, want=want, source=src)
+    d.flag(w.loops > MAX_LOOPS, "timer-livelock", edge=edge, clock=w.clock, probe=probe)
     # keeps running: nothing raised inside the event loop (it swallows and logs exceptions)
     all_inside = started_inside and status != T.INACTIVE
     for logger, exc in d.errors_logged():
@@ -589,4 +598,48 @@ def instances(tier):
         out.append(Inst(sched_run, dict(base='newyear', edge='none', res='h', start_days=(0, 1), span=2), budget=B))
         out.append(Inst(sched_run, dict(base='leap', edge='none', res='m', start_days=(0, 2), span=2), budget=300))
         return out
+
+    # ------------------------------------------------------------------ thorough
+    B = 600
+    for ms in [(1, 2), (3, 12)]:
+        out.append(Inst(match_date, dict(months=ms), budget=B))
+        out.append(Inst(calendar_entry, dict(choice='date', months=ms), budget=B))
+    for ms in [(1, 2), (3, 5), (6, 9), (10, 12)]:
+        out.append(Inst(match_weeknday, dict(months=ms), budget=B))
+        out.append(Inst(calendar_entry, dict(choice='weekNDay', months=ms), budget=B))
+    for fn, kw in ((match_date_range, {}), (calendar_entry, dict(choice='dateRange'))):
+        out.append(Inst(fn, dict(kw, start=U, end=U), budget=B))
+        for dow in ('right', 'any'):
+            out.append(Inst(fn, dict(kw, start=SP, end=U, dow=dow), budget=B))
+            out.append(Inst(fn, dict(kw, start=U, end=SP, dow=dow), budget=B))
+            out.append(Inst(fn, dict(kw, start=SP, end=SP, dow=dow), budget=B))
+    # weekly list alone: absent, 0..3 entries, all three days, second instant free
+    for nweek in (None, 0, 1, 2, 3):
+        _ev(out, B, days=A, exc=[], nweek=nweek)
+    # one exception of each period kind with two entries
+    for kind in ('date', 'range', 'wnd', 'calendar'):
+        _ev(out, B, exc=[(kind, 2)], nweek=1, prio=[(8,)], res='h' if kind == 'calendar' else 'hm')
+    # every priority; every pair of priorities
+    _ev(out, B, exc=[('dow', 1)], nweek=1, prio='sym')
+    _ev(out, B, exc=[('any', 1), ('any', 1)], nweek=0, prio='sym', res='h', stale='breakpoints')
+    _ev(out, B, exc=[('dow', 1), ('dow', 1)], nweek=1, prio='near', res='h', stale='breakpoints')
+    # three entries per list
+    _ev(out, B, exc=[('dow', 3)], nweek=3, prio=[(8,)], res='h', stale='breakpoints')
+    for pp in P3 + [(15, 16)]:
+        _ev(out, B, exc=[('dow', 1), ('dow', 1)], nweek=1, prio=[pp], stale='breakpoints')
+        _ev(out, B, exc=[('dow', 2), ('dow', 2)], nweek=1, prio=[pp], res='h', stale='breakpoints')
+    # three exceptions
+    for pp in [(1, 2, 3), (3, 2, 1), (2, 3, 1), (5, 5, 5), (1, 16, 16), (16, 1, 1)]:
+        _ev(out, B, exc=[('dow', 1), ('dow', 1), ('dow', 1)], nweek=1, prio=[pp], res='h', stale='breakpoints')
+    for eff in ('days', 'open-start', 'open-end', 'open-both'):
+        _ev(out, B, days=A, exc=[('dow', 1)], nweek=1, eff=eff, prio=[(8,)])
+    # the object on its own timer
+    for base in ('leap', 'newyear'):
+        for edge in ('none', 'enter', 'exit', 'both'):
+            out.append(Inst(sched_run, dict(base=base, edge=edge, res='h', start_days=(0, 2), span=2), budget=B))
+            out.append(Inst(sched_run, dict(base=base, edge=edge, res='m', start_days=(0, 2), span=2), budget=B))
+    for edge in ('none', 'enter', 'exit', 'both'):
+        for day in (0, 1, 2):
+            out.append(Inst(sched_run, dict(base='leap', edge=edge, res='hm', start_days=(day, day), span=1), budget=B))
+    out.append(Inst(sched_run, dict(base='leap', edge='none', res='s', start_days=(1, 1), span=1), budget=B))
     return out
